@@ -60,6 +60,7 @@ def ensure_facts(verbose=False):
         sys.exit(2)
     os.makedirs(CACHE, exist_ok=True)
     th = tree_hash(repo)
+    lock_existed = os.path.isfile(os.path.join(repo, "Cargo.lock"))
     d = os.path.join(CACHE, "facts-" + th)
     lock = open(os.path.join(CACHE, "lock"), "w")
     fcntl.flock(lock, fcntl.LOCK_EX)
@@ -82,11 +83,17 @@ def ensure_facts(verbose=False):
             print("ERROR: fact extraction failed (the tree does not build?):", file=sys.stderr)
             print(r.stdout[-4000:], file=sys.stderr)
             sys.exit(2)
-        # the tree must not have changed while we were extracting
-        if tree_hash(repo) != th:
-            shutil.rmtree(tmp, ignore_errors=True)
-            print("ERROR: sources changed during extraction", file=sys.stderr)
-            sys.exit(2)
+        # the tree must not have changed while we were extracting - except that cargo writes the
+        # (git-ignored) Cargo.lock of a checkout that did not have one yet
+        th2 = tree_hash(repo)
+        if th2 != th:
+            if not lock_existed and os.path.isfile(os.path.join(repo, "Cargo.lock")):
+                th = th2
+                d = os.path.join(CACHE, "facts-" + th)
+            else:
+                shutil.rmtree(tmp, ignore_errors=True)
+                print("ERROR: sources changed during extraction", file=sys.stderr)
+                sys.exit(2)
         with open(os.path.join(tmp, "OK"), "w") as fh:
             fh.write(th)
         shutil.rmtree(d, ignore_errors=True)
